@@ -1049,7 +1049,8 @@ type C17Case struct {
 	Down   []int    `json:"down,omitempty"`
 	Cut    [][2]int `json:"cut,omitempty"`
 	Remove bool     `json:"remove,omitempty"`
-	Lag    bool     `json:"lag,omitempty"` // a node joins and is cut off from the leader once it knows the dataset, before it learns that it became a replica
+	Churn  bool     `json:"churn,omitempty"` // sizes are asked while a joining node becomes a replica
+	Lag    bool     `json:"lag,omitempty"`   // a node joins and is cut off from the leader once it knows the dataset, before it learns that it became a replica
 }
 
 func genC17(r *simrt.Rand, tier string) json.RawMessage {
@@ -1062,6 +1063,21 @@ func genC17(r *simrt.Rand, tier string) json.RawMessage {
 		c.W3.Replicas = c.W3.Nodes
 	}
 	c.Items = r.Range(1, 16)
+	if r.Bool(0.12) {
+		// under-replicated dataset; a node joins and is made a replica of every partition, and
+		// sizes are asked all the while - on the joiner above all, whose own view of what it
+		// hosts changes under the running requests
+		c.W3.Nodes = r.Range(1, 3)
+		c.W3.Replicas = c.W3.Nodes + 1
+		c.W3.Partitions = r.Range(1, 4)
+		c.Items = r.Range(4, 16)
+		c.W3.Cfg.YieldP = []int{0, 10, 40, 100}[r.Intn(4)]
+		c.W3.Cfg.Burst = []int{0, 30, 60}[r.Intn(3)]
+		c.W3.Cfg.Deep = []int{0, 100, 400}[r.Intn(3)]
+		c.Churn = true
+		b, _ := json.Marshal(c)
+		return b
+	}
 	if r.Bool(0.15) {
 		// under-replicated dataset, then a lagging joiner
 		c.W3.Nodes = r.Range(2, 3)
@@ -1162,6 +1178,47 @@ func execC17(raw json.RawMessage, wantLog bool) (out Outcome) {
 		}
 		faulty := len(c.Down) > 0 || len(c.Cut) > 0 || c.Lag
 		rounds := 1
+		if c.Churn {
+			nj := s.addNode(joinList(len(s.nodes)+1, 1, len(s.nodes)))
+			if err := s.startNode(nj); err != nil {
+				return
+			}
+			pick := simrt.NewRand(c.W3.Cfg.Seed ^ 0x51e)
+			t0 := s.now()
+			for i := 0; i < 250 && s.now()-t0 < 8*time.Second; i++ {
+				n := nj
+				if pick.Bool(0.3) {
+					n = s.nodes[pick.Intn(len(s.nodes))]
+				}
+				if !n.alive || r.datasetOn(n, info.id) == nil {
+					s.runFor(5 * time.Millisecond)
+					continue
+				}
+				before := c17Replicas(r, info.id)
+				h, _ := r.runRead(W3Op{K: "size", Node: n.idx})
+				out.Stat("size_requests", 1)
+				out.Stat("size_requests_while_replica_sets_change", 1)
+				if !h.done {
+					r.viol("size-never-returned", "SizeInfo on n%d did not return within 15 simulated seconds", n.idx)
+					return
+				}
+				if h.err != nil {
+					out.Stat("size_failed_loudly", 1)
+					continue
+				}
+				got := h.res.(*sizeRes)
+				lo, hi, ok := c17Bounds(before, c17Replicas(r, info.id), len(parts))
+				if ok && (got.n < lo || got.n > hi) {
+					r.viol("len/outside-the-range-of-the-replicas/while-replica-sets-change", "SizeInfo on n%d reports %d items while a joining node is being made a replica; counting each of the %d partitions once, on any one of its replicas, gives between %d and %d", n.idx, got.n, len(parts), lo, hi)
+					return
+				}
+				out.Stat("sizes_checked_against_replica_range", 1)
+				if pick.Bool(0.5) {
+					s.runFor(time.Duration(pick.Range(1, 30)) * time.Millisecond)
+				}
+			}
+			return
+		}
 		if c.Lag {
 			// A node joins. The primaries make it a replica of the under-replicated partitions
 			// (catalogue entries); the joiner is cut off from the leader as soon as it knows the
@@ -1345,6 +1402,76 @@ func execC17(raw json.RawMessage, wantLog bool) (out Outcome) {
 	return
 }
 
+// c17Replicas: per partition what its replicas hold right now. A node that lists itself
+// as a host of the partition but has not loaded it yet (the allocator loads
+// asynchronously) counts as a replica that holds nothing so far: like a loaded replica
+// that is still catching up, it is behind, not wrong.
+type c17Part struct {
+	lo, hi uint64
+	loaded bool
+	sig    string // which nodes are replicas (listed or loaded)
+}
+
+func c17Replicas(r *W3Run, dsid uuid.UUID) map[uuid.UUID]*c17Part {
+	now := map[uuid.UUID]*c17Part{}
+	for _, m := range r.s.nodes {
+		if !m.alive || m.parts == nil {
+			continue
+		}
+		if d := r.datasetOn(m, dsid); d != nil {
+			for _, p := range d.Partitions {
+				listed := false
+				for _, h := range p.NodeIds {
+					listed = listed || h == m.id
+				}
+				if !p.RaftLoaded && !listed {
+					continue
+				}
+				v := uint64(p.Len)
+				if !p.RaftLoaded {
+					v = 0
+				}
+				x := now[p.Id]
+				if x == nil {
+					x = &c17Part{lo: v, hi: v}
+					now[p.Id] = x
+				}
+				x.loaded = x.loaded || p.RaftLoaded
+				x.sig += fmt.Sprintf("n%d:%v ", m.idx, p.RaftLoaded)
+				if v < x.lo {
+					x.lo = v
+				}
+				if v > x.hi {
+					x.hi = v
+				}
+			}
+		}
+	}
+	return now
+}
+
+// c17Bounds: the range a size request may report when every partition contributes what
+// ONE of its replicas held at some instant between the two observations. Replicas only
+// grow while they catch up (lower bound from before, upper bound from after); a
+// partition whose replica set changed in between may have been counted on a replica
+// that had nothing yet.
+func c17Bounds(before, after map[uuid.UUID]*c17Part, nParts int) (lo, hi uint64, ok bool) {
+	if len(before) != nParts || len(after) != nParts {
+		return 0, 0, false
+	}
+	for pid, b := range before {
+		a := after[pid]
+		if a == nil || !a.loaded || !b.loaded {
+			return 0, 0, false
+		}
+		if a.sig == b.sig {
+			lo += b.lo
+		}
+		hi += a.hi
+	}
+	return lo, hi, true
+}
+
 func shrinkC17(raw json.RawMessage) []json.RawMessage {
 	var c C17Case
 	if json.Unmarshal(raw, &c) != nil {
@@ -1407,7 +1534,7 @@ func init() {
 				}
 				return q, 5 * time.Minute
 			},
-			Gen: gen, Exec: withSample(gen, exec), Shrink: shrink, DeathSig: w3DeathSig(id),
+			Gen: withSchedKnobs(gen), Exec: withSample(gen, exec), Shrink: shrink, DeathSig: w3DeathSig(id),
 		})
 	}
 	mk("C09", "exploration",
@@ -1424,7 +1551,7 @@ func init() {
 		genC11, execC11, shrinkC05, 1200, 40000)
 	mk("C17", "exploration",
 		"case = cluster of 1..4 servers, dataset with 1..6 partitions and 1..3 replicas, 1..16 items (partitions end up with different sizes), SizeInfo asked on every node, yield probability 0..100% at the goroutine starts of the lookup loop; optionally a crashed node or a blocked link; non-trivial = at least one size request; distinct = hash of the event log",
-		[]string{"size_requests", "size_requests_with_remote_lookups", "sizes_checked_against_sum", "partitions_with_different_sizes", "size_failed_loudly", "fault_crash", "fault_partition", "node_removed_from_membership"},
+		[]string{"size_requests", "size_requests_with_remote_lookups", "sizes_checked_against_sum", "partitions_with_different_sizes", "size_failed_loudly", "fault_crash", "fault_partition", "node_removed_from_membership", "size_requests_while_replica_sets_change"},
 		genC17, execC17, shrinkC17, 1200, 40000)
 }
 
